@@ -53,7 +53,7 @@
    NOT COVERED: convergence proofs; TrustRegionNewton, which is abstract in this tree (its init takes a
    non-const objective and does not override the pure virtual init): no object exists to check. *)
 From Coq Require Import List QArith Qreduction Qabs Bool Arith.
-From SharkV Require Import C10Model C10Proofs.
+From SharkV Require Import C10Model C10Proofs C10LsModel C10LsProofs C10BfgsProofs.
 Import ListNotations.
 Open Scope Q_scope.
 
@@ -160,6 +160,176 @@ Theorem C10_steepestdescent_saverestore_continues :
 Proof. exact sd_saverestore_full_continues. Qed.
 Print Assumptions C10_steepestdescent_saverestore_continues.
 
+(* ====================================================================================================
+   All three line searches (Dlinmin, WolfeCubic, Backtracking) with the numerical choice of the trial step
+   lengths as an arbitrary oracle [o : ls_oracle]; BFGS.  Models in C10LsModel.v. *)
+
+(* one call of LineSearch::operator(): state consistency.  [None] = the C++ reads unassigned memory, see
+   C10_wolfecubic_undefined_iff *)
+Theorem C10_linesearch_call_consistent :
+  forall (f : vec -> Q) (grad : vec -> vec) (ty : nat) (o : ls_oracle) (point d : vec) (value : Q) (g : vec) (t0 : Q)
+         (p' : vec) (v' : Q) (g' : vec),
+    value = f point -> g = grad point ->
+    linesearch f grad ty o point d value g t0 = Some (p', v', g') ->
+    v' = f p' /\ g' = grad p'.
+Proof. exact linesearch_consistent. Qed.
+Print Assumptions C10_linesearch_call_consistent.
+
+(* one call never increases the value: along a non-ascent direction with a non-negative initial step length
+   (wolfecubic, backtracking; dlinmin needs neither: C10_dlinmin_spec) *)
+Theorem C10_linesearch_call_never_increases :
+  forall (f : vec -> Q) (grad : vec -> vec) (ty : nat) (o : ls_oracle) (point d : vec) (value : Q) (g : vec) (t0 : Q)
+         (p' : vec) (v' : Q) (g' : vec),
+    value = f point -> 0 <= t0 -> dot g d <= 0 ->
+    linesearch f grad ty o point d value g t0 = Some (p', v', g') -> v' <= value.
+Proof. exact linesearch_monotone. Qed.
+Print Assumptions C10_linesearch_call_never_increases.
+
+Theorem C10_dlinmin_spec :
+  forall (f : vec -> Q) (o : ls_oracle) (point d : vec),
+    let r := dlinmin f o point d in
+    snd r = f (fst r) /\ snd r <= f point /\
+    (fst r = point \/ exists u, In u (o_dx0 o :: firstn dl_itmax (o_dus o)) /\ fst r = ray point d u).
+Proof. exact dlinmin_spec. Qed.
+Print Assumptions C10_dlinmin_spec.
+
+(* the new point is on the search LINE for every type and every oracle ... *)
+Theorem C10_linesearch_on_line :
+  forall (f : vec -> Q) (grad : vec -> vec) (ty : nat) (o : ls_oracle) (point d : vec) (value : Q) (g : vec) (t0 : Q)
+         (p' : vec) (v' : Q) (g' : vec),
+    linesearch f grad ty o point d value g t0 = Some (p', v', g') ->
+    p' = point \/ exists t, p' = vadd point (vscale t d).
+Proof. exact linesearch_on_line. Qed.
+Print Assumptions C10_linesearch_on_line.
+
+(* ... and on the search RAY for wolfecubic and backtracking (oracle without negative proposals: the C++ clamps the
+   interpolated step into the bracket).  Not for dlinmin: C10_ex_dlinmin_steps_backward. *)
+Theorem C10_linesearch_on_ray :
+  forall (f : vec -> Q) (grad : vec -> vec) (ty : nat) (o : ls_oracle) (point d : vec) (value : Q) (g : vec) (t0 : Q)
+         (p' : vec) (v' : Q) (g' : vec),
+    ty <> 0%nat -> 0 <= t0 -> (forall k q, 0 <= q -> 0 <= o_wexp o k q) -> (forall k, 0 <= o_wzoom o k) ->
+    linesearch f grad ty o point d value g t0 = Some (p', v', g') ->
+    p' = point \/ exists t, 0 <= t /\ p' = vadd point (vscale t d).
+Proof. exact linesearch_on_ray. Qed.
+Print Assumptions C10_linesearch_on_ray.
+
+(* exactly when wolfecubic reads bracket / bracketf / bracketg without having assigned them *)
+Theorem C10_wolfecubic_undefined_iff :
+  forall (f : vec -> Q) (grad : vec -> vec) (o : ls_oracle) (point d : vec) (value : Q) (g : vec) (t0 : Q),
+    wolfecubic f grad o point d value g t0 = None <->
+    match wc_bracketing f grad wc_max_iter 1 (o_wexp o) point d value (dot g d) (0, value, g) (eval3 f grad point d t0) with
+    | WB_exhausted => True
+    | WB_single e0 iter => (wc_max_iter <= iter)%nat /\ value <= e_f e0
+    | WB_pair _ _ _ => False
+    end.
+Proof. exact wolfecubic_undefined_iff. Qed.
+Print Assumptions C10_wolfecubic_undefined_iff.
+
+(* init / step of AbstractLineSearchOptimizer, every derived class, ALL line-search types, every oracle sequence *)
+Theorem C10_linesearch_state_consistent_all_types :
+  forall (f : vec -> Q) (grad : vec -> vec) (feasible : vec -> bool)
+         (M : Type) (init_model : nat -> M) (compute_dir : ls_state M -> M * vec)
+         (constrained : bool) (lstype : nat) (x0 : vec) (orcs : nat -> ls_oracle) (n : nat) (s : ls_state M),
+    ls_run_o f grad M compute_dir orcs 0 n (ls_init_o f grad feasible M init_model constrained lstype x0) = Some s ->
+    val s = f (pt s) /\ der s = grad (pt s).
+Proof. exact linesearch_state_consistent_all_types. Qed.
+Print Assumptions C10_linesearch_state_consistent_all_types.
+
+(* a run is defined as soon as none of its line-search calls is undefined *)
+Theorem C10_linesearch_run_defined :
+  forall (f : vec -> Q) (grad : vec -> vec) (M : Type) (compute_dir : ls_state M -> M * vec)
+         (orcs : nat -> ls_oracle) (n k : nat) (s : ls_state M),
+    (forall j s1, (j < n)%nat -> ls_run_o f grad M compute_dir orcs k j s = Some s1 ->
+       linesearch f grad (ls_type s1) (orcs (k + j)%nat) (pt s1) (sdir s1) (val s1) (der s1) (step_len s1) <> None) ->
+    ls_run_o f grad M compute_dir orcs k n s <> None.
+Proof. exact run_o_defined. Qed.
+Print Assumptions C10_linesearch_run_defined.
+
+(* full statement (not proved): without the hypothesis on compute_dir for CG (false as coded) and L-BFGS *)
+Theorem C10_linesearch_monotone_all_types_partial :
+  forall (f : vec -> Q) (grad : vec -> vec) (feasible : vec -> bool)
+         (M : Type) (init_model : nat -> M) (compute_dir : ls_state M -> M * vec),
+    (forall s1, dot (der s1) (snd (compute_dir s1)) <= 0) ->
+    forall (constrained : bool) (lstype : nat) (x0 : vec) (orcs : nat -> ls_oracle) (n : nat) (o : ls_oracle) (s s' : ls_state M),
+    ls_run_o f grad M compute_dir orcs 0 n (ls_init_o f grad feasible M init_model constrained lstype x0) = Some s ->
+    ls_step_o f grad M compute_dir o s = Some s' ->
+    val s' <= val s /\ f (pt s') <= f (pt s).
+Proof. exact run_o_monotone_descent_oracle. Qed.
+Print Assumptions C10_linesearch_monotone_all_types_partial.
+
+(* ---------------- BFGS ---------------- *)
+(* y'H x = x'H y for all x, y of length n; C10_bfgs_symmetry_is_entrywise relates it to the entries *)
+Theorem C10_bfgs_update_symmetric :
+  forall (n : nat) (H : mat) (gamma delta : vec) (d : Q),
+    length H = n -> rows n H -> length delta = n -> symm n H ->
+    symm n (bfgs_update H gamma delta d).
+Proof. exact bfgs_update_symm. Qed.
+Print Assumptions C10_bfgs_update_symmetric.
+
+Theorem C10_bfgs_symmetry_is_entrywise :
+  forall (n : nat) (A : mat), length A = n -> rows n A -> symm n A ->
+    forall i j, (i < n)%nat -> (j < n)%nat -> nth j (nth i A []) 0 == nth i (nth j A []) 0.
+Proof. exact symm_entries. Qed.
+Print Assumptions C10_bfgs_symmetry_is_entrywise.
+
+(* the quadratic-form identity  x'H+x = w'Hw + (s'x)^2 / (y's),  w = x - (s'x / y's) y *)
+Theorem C10_bfgs_update_quadratic_form :
+  forall (n : nat) (H : mat) (gamma delta : vec) (d : Q),
+    length H = n -> rows n H -> length gamma = n -> length delta = n -> symm n H ->
+    forall x, length x = n -> ~ d == 0 ->
+    let c := dot x delta / d in
+    let w := vsub x (vscale c gamma) in
+    bil (bfgs_update H gamma delta d) x x == bil H w w + dot x delta * dot x delta / d.
+Proof. exact bfgs_update_quadratic_form. Qed.
+Print Assumptions C10_bfgs_update_quadratic_form.
+
+Theorem C10_bfgs_update_positive_definite :
+  forall (n : nat) (H : mat) (gamma delta : vec) (d : Q),
+    length H = n -> rows n H -> length gamma = n -> length delta = n -> symm n H -> posdef n H ->
+    0 < d -> posdef n (bfgs_update H gamma delta d).
+Proof. exact bfgs_update_posdef. Qed.
+Print Assumptions C10_bfgs_update_positive_definite.
+
+(* the reset as coded: y's < 1e-20 replaces the matrix by the identity (and the direction by -g) *)
+Theorem C10_bfgs_reset_as_coded :
+  forall s : ls_state mat,
+    dot (vsub (der s) (last_der s)) (vsub (pt s) (last_pt s)) < bfgs_eps ->
+    bfgs_dir s = (identity (dim s), vneg (mv (identity (dim s)) (der s))).
+Proof. exact bfgs_dir_reset. Qed.
+Print Assumptions C10_bfgs_reset_as_coded.
+
+(* after init and after every step of BFGS, every line-search type, every oracle: the matrix is symmetric positive
+   definite and the stored direction is a descent direction (strictly, whenever the gradient is not zero) *)
+Theorem C10_bfgs_direction_descent :
+  forall (f : vec -> Q) (grad : vec -> vec) (feasible : vec -> bool) (n : nat),
+    (forall x, length x = n -> length (grad x) = n) ->
+    forall (constrained : bool) (lstype : nat) (x0 : vec) (orcs : nat -> ls_oracle) (k : nat) (s : ls_state mat),
+    length x0 = n ->
+    ls_run_o f grad mat bfgs_dir orcs 0 k (ls_init_o f grad feasible mat bfgs_init_model constrained lstype x0) = Some s ->
+    symm n (extra s) /\ posdef n (extra s) /\
+    dot (der s) (sdir s) <= 0 /\ (~ vzero (der s) -> dot (der s) (sdir s) < 0).
+Proof. exact bfgs_direction_descent. Qed.
+Print Assumptions C10_bfgs_direction_descent.
+
+(* ... hence C10_linesearch_monotone_partial without its hypothesis, for BFGS *)
+Theorem C10_bfgs_monotone :
+  forall (f : vec -> Q) (grad : vec -> vec) (feasible : vec -> bool) (n : nat),
+    (forall x, length x = n -> length (grad x) = n) ->
+    forall (constrained : bool) (lstype : nat) (x0 : vec) (orcs : nat -> ls_oracle) (k : nat) (o : ls_oracle) (s s' : ls_state mat),
+    length x0 = n ->
+    ls_run_o f grad mat bfgs_dir orcs 0 k (ls_init_o f grad feasible mat bfgs_init_model constrained lstype x0) = Some s ->
+    ls_step_o f grad mat bfgs_dir o s = Some s' ->
+    val s' <= val s /\ f (pt s') <= f (pt s).
+Proof. exact bfgs_monotone. Qed.
+Print Assumptions C10_bfgs_monotone.
+
+Theorem C10_bfgs_saverestore_continues :
+  forall (f : vec -> Q) (grad : vec -> vec) (fresh s s' : ls_state mat),
+    ls_restore mat bfgs_restore_extra fresh (ls_save mat bfgs_save_extra s) = Some s' ->
+    forall orcs k n, ls_run_o f grad mat bfgs_dir orcs k n s' = ls_run_o f grad mat bfgs_dir orcs k n s.
+Proof. exact bfgs_saverestore_continues. Qed.
+Print Assumptions C10_bfgs_saverestore_continues.
+
 (* hypotheses are satisfiable / conclusions are not vacuous *)
 Example C10_ex_quadratic_run : strictly_decreasing (map val exq_trace) = true.
 Proof. exact (proj1 quadratic_iterates_decrease). Qed.
@@ -174,3 +344,22 @@ Example C10_ex_penalised_objective : forall x y, box_feas x = false -> box_feas 
 Proof. exact box_f_infeasible_worse. Qed.
 Example C10_ex_ascent_direction_accepted : backtracking asc_f asc_grad [-1] [1] 0 [20000] 1 = ([0], 1, [20000]).
 Proof. exact backtracking_ascent_example. Qed.
+Example C10_ex_wolfecubic_undefined_on_linear_objective : wolfecubic lin_f lin_grad id_oracle [0] [1] 0 [-1] 1 = None.
+Proof. exact wolfecubic_linear_undefined. Qed.
+Example C10_ex_wolfecubic_defined : wolfecubic par_f par_grad half_oracle [0] [1] 0 [-1] 1 = Some ([1 # 2], - (1 # 4), [0]).
+Proof. exact wolfecubic_parabola. Qed.
+Example C10_ex_oracle_without_negative_steps :
+  (forall k q, 0 <= q -> 0 <= o_wexp id_oracle k q) /\ (forall k, 0 <= o_wzoom id_oracle k).
+Proof. exact id_oracle_nonneg. Qed.
+Example C10_ex_dlinmin_steps_backward :
+  dot (back_grad [0]) [1] < 0 /\
+  linesearch back_f back_grad 0 back_oracle [0] [1] 0 (back_grad [0]) 1 = Some ([- (3 # 2)], - (21 # 16), [- (1 # 4)]).
+Proof. exact dlinmin_backward_example. Qed.
+Example C10_ex_gradient_length : forall n A b, length A = n -> length b = n -> forall x, length (quad_grad A b x) = n.
+Proof. exact quad_grad_length. Qed.
+Example C10_ex_identity_spd : forall n, symm n (identity n) /\ posdef n (identity n).
+Proof. intro n. split; [apply identity_symm | apply identity_posdef]. Qed.
+Example C10_ex_bfgs_runs :
+  forallb (fun ty => forallb (fun n => defined (exb_run ty n)) [0; 1; 2; 3]%nat &&
+                     strictly_decreasing (map (fun n => opt_val (exb_run ty n)) [0; 1; 2; 3]%nat)) [0; 1; 2]%nat = true.
+Proof. exact bfgs_runs_decrease. Qed.
